@@ -49,7 +49,7 @@ Fixpoint trace_prefix (k : caps) (s : state) (ops : list op) : list tstep :=
   match ops with
   | [] => []
   | o :: r => let (s', outs) := step_prefix k s o in
-              {| t_op := o; t_outs := outs; t_pre := s; t_post := s' |} :: trace_prefix k s' r
+              {| t_op := o; t_outs := outs; t_hooks := []; t_pre := s; t_post := s' |} :: trace_prefix k s' r
   end.
 
 Definition caps10 : caps := {| k_maxsei := 10; k_minver := 3; k_maxqos := 2; k_retain := true |}.
